@@ -300,7 +300,7 @@ func genC14(g *Rng, tier string, emit func(Op)) {
 			honestReqs = append(honestReqs, cloneTree(map[string]any(ho)))
 		}
 		// the joint proof list verifies for total secret = user + server share
-		respReq.Context = context // the caller fills in the session's context (absent = 1)
+		// (the request carries the session's context itself since 300e042)
 		proofP, err := gabi.KeyshareResponse(kssSecret, kssRand, commReq, respReq, part)
 		if err != nil {
 			panic(err)
@@ -364,7 +364,6 @@ func genC14(g *Rng, tier string, emit func(Op)) {
 					emit(Op{"op": "recorded", "class": "second-exchange", "label": "completed", "nomodel": true, "result": "response request: " + err.Error()})
 					return
 				}
-				respReq2.Context = context
 				emit(ksOp(partIDs, kssSecret, kssRand2, commReq2.HashedUserCommitments, context, nonce2, respReq2.UserResponse, issig, respReq2.UserChallengeInput, "honest-second-exchange", "ok:"+showInt(challenge2)))
 				proofP2, err := gabi.KeyshareResponse(kssSecret, kssRand2, commReq2, respReq2, part)
 				if err != nil {
@@ -425,6 +424,20 @@ func genC14(g *Rng, tier string, emit func(Op)) {
 			}
 			return in
 		})
+		// a second message with parts missing: an error, no response (and no crash)
+		for _, what := range []string{"val", "comm", "nonce", "resp"} {
+			o := ksOp(partIDs, kssSecret, kssRand, hw, context, nonce, respReq.UserResponse, issig, in, "second-message-"+what+"-missing", "err")
+			o["nomodel"], o["fkey"] = true, "C14/second-message-incomplete"
+			switch what {
+			case "val", "comm":
+				ins := cloneTree(o["inputs"]).([]any)
+				delete(ins[i].(map[string]any), what)
+				o["inputs"] = ins
+			default:
+				delete(o, what)
+			}
+			emit(o)
+		}
 		alt("key-id-unknown", func(in []ksIn) []ksIn { s := "nobody"; in[i].KeyID = &s; return in })
 		alt("entry-dropped", func(in []ksIn) []ksIn { return append(in[:i], in[i+1:]...) })
 		alt("entry-duplicated", func(in []ksIn) []ksIn { return append(in, in[i]) })
@@ -603,7 +616,6 @@ func witnessUpdateBetweenMessagesOp(g *Rng, kp *KeyPair, issig bool) Op {
 			if err != nil {
 				return "failed: " + err.Error()
 			}
-			respReq.Context = ctx
 			proofP, err := gabi.KeyshareResponse(kssSecret, kssRand, commReq, respReq, part)
 			if err != nil {
 				return "failed: server: " + err.Error()
